@@ -48,9 +48,17 @@ pub fn exec(case: &Value) -> Value {
         "wrap" => {
             let (a, lo, hi) = (fb(case, "ab"), fb(case, "lob"), fb(case, "hib"));
             let r = degs(a).wrap(degs(lo), degs(hi)).to_degs();
+            let (ar, lr, hr) = (degs(a).to_rads(), degs(lo).to_rads(), degs(hi).to_rads());
+            let (d, p) = (ar - lr, hr - lr);
+            let exact = (d as f64 == ar as f64 - lr as f64 && p as f64 == hr as f64 - lr as f64 && p > 0.0 && (d as f64 % p as f64) == 0.0) as u8;
+            let athi = (degs(a).wrap(degs(lo), degs(hi)).to_rads() == hr) as u8;
             // (exact comparisons of the observed f32 values: the scaled integers cannot show one ulp)
             vec![("a", json!(sc(a, 1024.0))), ("lo", json!(sc(lo, 1024.0))), ("hi", json!(sc(hi, 1024.0))), ("r", json!(sc(r, 1024.0))),
-                 ("below", json!((r < lo) as u8)), ("above", json!((r > hi) as u8))]
+                 ("below", json!((r < lo) as u8)), ("above", json!((r > hi) as u8)),
+                 // exact: the angle is a whole number of interval lengths away from the lower end, exactly (no rounding
+                 // anywhere: judged in f64 on the f32 values); athi: the result is the upper end
+                 // (in the radians the library computes in: both differences exact in f32, their quotient whole)
+                 ("exact", json!(exact)), ("athi", json!(athi))]
         }
         "arith" => {
             let (a, b, c) = (fb(case, "ab"), fb(case, "bb"), fb(case, "cb"));
